@@ -111,3 +111,16 @@ def h1_post(data, code, used_registers):
     if not enabled():
         return
     emit("h1_post", stream=_stream(data, code), used=list(used_registers))
+
+
+def h2_opts_effective(options):
+    """The option vector in force after the '# pytrapic:' directive scan of compile_code."""
+    if not enabled():
+        return
+    import dataclasses
+
+    try:
+        vec = dataclasses.asdict(options)
+    except TypeError:
+        vec = {k: v for k, v in vars(options).items()}
+    emit("opts_effective", options=vec)
